@@ -893,7 +893,58 @@ def context_literal_keys(em):
                     keys.append(k.value)
                 em._context_literal = n.value
                 return keys
+    lit = _context_by_evaluation(em, cands)
+    if lit is not None:
+        em._context_literal = lit
+        return [k.value for k in lit.keys]
     raise AnalysisError('anchor vanished: the default eval_context literal')
+
+
+def _context_by_evaluation(em, cands):
+    """the default context is not spelled as one literal (built from a table, filled in a loop): the set-up method is
+    evaluated by the checker and the resulting mapping is written back as the literal it abbreviates"""
+    from .symex import SymEx, PathState, DictV, Const, Sym, SelfV, New, ListV
+    for c in cands:
+        if not any(isinstance(n, ast.Attribute) and isinstance(n.ctx, ast.Store) and is_self_attr(n, 'eval_context') for n in own_nodes(c.node)):
+            continue
+        sx = SymEx(em.repo, inline=lambda g: False, max_depth=2)
+        sx.max_steps = 20000
+        try:
+            outs = sx.run(c, [Sym(p) for p in c.params[1:]], PathState())
+        except (AnalysisError, RecursionError):
+            continue
+        if len(outs) != 1:
+            continue
+        d = outs[0][0].fields.get('eval_context')
+        if not isinstance(d, DictV) or not all(isinstance(k, Const) and isinstance(k.v, str) for k, _ in d.pairs):
+            continue
+
+        def conv(v):
+            if isinstance(v, tuple) and v and v[0] == 'bound' and isinstance(v[2], SelfV):
+                return ast.Attribute(value=ast.Name(id='self', ctx=ast.Load()), attr=v[1].name, ctx=ast.Load())
+            if isinstance(v, tuple) and v and v[0] == 'func':
+                return ast.Name(id=v[1].name, ctx=ast.Load())
+            if isinstance(v, tuple) and v and v[0] == 'class':
+                return ast.Name(id=v[1].name, ctx=ast.Load())
+            if isinstance(v, Const):
+                return ast.Constant(value=v.v)
+            if isinstance(v, DictV):
+                return ast.Dict(keys=[ast.Constant(value=k.v) if isinstance(k, Const) else ast.Name(id='_k', ctx=ast.Load()) for k, _ in v.pairs],
+                                values=[conv(x) for _, x in v.pairs])
+            if isinstance(v, ListV):
+                return ast.List(elts=[conv(x) for x in v.items], ctx=ast.Load())
+            if isinstance(v, Sym) and v.path.startswith('self.') and v.path.count('.') == 1:
+                return ast.Attribute(value=ast.Name(id='self', ctx=ast.Load()), attr=v.path[5:], ctx=ast.Load())
+            if isinstance(v, New):
+                return ast.Call(func=ast.Name(id=v.cls.name, ctx=ast.Load()), args=[conv(a) for a in v.args], keywords=[])
+            return ast.Name(id='_computed_%s' % type(v).__name__, ctx=ast.Load())
+        lit = ast.Dict(keys=[ast.Constant(value=k.v) for k, _ in d.pairs], values=[conv(v) for _, v in d.pairs])
+        ast.copy_location(lit, c.node)
+        for n in ast.walk(lit):
+            ast.copy_location(n, c.node)
+        ast.fix_missing_locations(lit)
+        return lit
+    return None
 
 
 # ---------------------------------------------------------------------------------------------
